@@ -4,7 +4,7 @@ import ast
 
 from .. import abseval
 from ..astutil import u, names_in, walk_no_nested, must_atoms
-from ..model import norm
+from ..model import norm, AnalysisError
 from .models import single_def, resolve_alias, ctor_call, ctor_arg
 
 RULE = 'R-FRESH'
@@ -421,3 +421,28 @@ def check_universe_monotone(ctx, rep, funcs, attr='V', rule=RULE + '.universe'):
         for f in funcs:
             rep.holds(rule, f, 'def ' + f.name, 'the universe .{} only grows in this phase'.format(attr), nontrivial=False)
     return n
+
+
+def check_generator(ctx, rep, rule=RULE + '.generator'):
+    """the counter-based name generator is total and never repeats: generate() has no raise and no conditional exit, the
+    returned text contains the counter, and the counter is advanced on the path to every return"""
+    cls = [c for c in ctx.prog.classes.values() if c.name == 'IdentifierGenerator' and not c.module.name.startswith('template:')]
+    if not cls or 'generate' not in cls[0].methods:
+        raise AnalysisError('IdentifierGenerator.generate vanished')
+    g = cls[0].methods['generate']
+    fx = ctx.facts(g)
+    raises = [n for n in walk_no_nested(g.node) if isinstance(n, (ast.Raise, ast.Assert))]
+    rets = [n for n in walk_no_nested(g.node) if isinstance(n, ast.Return)]
+    incs = [n for n in walk_no_nested(g.node) if (isinstance(n, ast.Assign) and u(n.targets[0]) == 'self.index' and 'self.index' in u(n.value) and '+' in u(n.value))
+            or (isinstance(n, ast.AugAssign) and u(n.target) == 'self.index' and isinstance(n.op, ast.Add))]
+    if raises:
+        rep.violates(rule, g, raises[0], 'the name generator can refuse to produce a name ({}): the constructions that draw their state names from it (union, star, the regular-expression translation, with a generator that lives as long as the process) fail after enough calls instead of returning an automaton'.format(u(raises[0])[:70]))
+    else:
+        rep.holds(rule, g, 'def generate', 'the generator never raises', nontrivial=False)
+    inc_nodes = {fx.cfg.n_of(n) for n in incs}
+    ok = bool(rets) and bool(incs) and all(fx.cfg.must_pass(inc_nodes, fx.cfg.n_of(r)) for r in rets)
+    if ok:
+        rep.holds(rule, g, incs[0], 'the counter is advanced on the path to every return: no name is handed out twice')
+    else:
+        rep.violates(rule, g, 'def generate', 'a path returns a name without advancing the counter: the same name is handed out again')
+    return 2
